@@ -115,6 +115,10 @@ def classify(v: dict) -> str | None:
 	if v['kind'] == 'tree/differs' and "/assign[1]: length 1 vs" in first:
 		return 'chained-assignment-last-operand-unreachable'
 	# 'with (a, b):' – the only with-item is a parenthesised tuple without `as`: tranp has ONE item whose expression is a tuple, CPython has the tuple's elements as items
+	# 'self.a, self.b = ...' in a constructor: CPython binds both, tranp marks only the first as a declaration
+	m2 = re.search(r"/assign\[1\]/\[0\]/\[(\d+)\]: length 3 vs 2: \('attr', \('name', 'self'\), '\w+'\) vs \('decl', \('attr', \('name', 'self'\)", first)
+	if v['kind'] == 'tree/differs' and m2 and int(m2.group(1)) >= 1 and '/def[6]/' in first:
+		return 'destructured-self-attribute-not-a-declaration'
 	m = re.search(r"/with\[1\](/\[0\]/\[0\]: length 2 vs|: length 1 vs \d+:)", first)
 	if v['kind'] == 'tree/differs' and m and re.search(r'^\s*with \(.*\):\s*$', d, re.M) and "('tuple'," in first:
 		return 'parenthesised-with-items-read-as-tuple'
@@ -134,6 +138,7 @@ SPECIAL = [
 
 WITNESS_CHAIN = 'a = b = c\n'
 WITNESS_WITH = 'with (a, b):\n\tpass\n'
+WITNESS_SELF_DESTRUCTURE = 'class A:\n\tdef __init__(self) -> None:\n\t\tself.a, self.b = 1, 2\n'
 
 
 def shard(ctx: Ctx, acc: Acc) -> None:
@@ -146,6 +151,7 @@ def shard(ctx: Ctx, acc: Acc) -> None:
 			check_case(acc, {'kind': 'source', 'source': text, 'features': ['stmt:if']})
 		check_case(acc, {'kind': 'source', 'source': WITNESS_CHAIN, 'features': ['assign-chain']})
 		check_case(acc, {'kind': 'source', 'source': WITNESS_WITH, 'features': ['stmt:with']})
+		check_case(acc, {'kind': 'source', 'source': WITNESS_SELF_DESTRUCTURE, 'features': ['assign-destructure']})
 	for i in range(n):
 		if not ctx.mine(i):
 			continue
